@@ -17,19 +17,22 @@
 (***************************************************************************)
 EXTENDS Extend, TLC
 
-CONSTANTS T, MaxDist, Rad2, Lvs, Bias, Seeded, TSet, MaxCalls, Worlds, Problems, Region,
+CONSTANTS T, MaxDist, Rad2, Lvs, Bias, Seeded, TSet, MaxCalls, WorldPairs, Problems, SetupChoices, Region,
           ValidateRoots, RestoreRng,
           NearFirst,        \* TRUE: the nearest node is the FIRST minimum (the code's tie-break) - used to
                             \* search for implementation-level counterexamples; FALSE: any nearest node
           RewireStrict      \* TRUE: rewire only when strictly cheaper (pinned code); FALSE = the
                             \* "<=" mutant, kept to show C15 is not vacuous
 
-VARIABLES valid, probs, pd, tree, rtree, acc, pc, now, deadline, rng, src, res, rres, ncalls,
+VARIABLES worlds, vc, probs, pd, tree, rtree, acc, pc, now, deadline, rng, src, res, rres, ncalls,
           last,    \* facts about the last iteration (for the action-level C17 rules)
           hist
 
-vars == <<valid, probs, pd, tree, rtree, acc, pc, now, deadline, rng, src, res, rres, ncalls, last, hist>>
-view == <<valid, probs, pd, tree, rtree, acc, pc, now, deadline, rng, src, res, rres, ncalls, last>>
+vars == <<worlds, vc, probs, pd, tree, rtree, acc, pc, now, deadline, rng, src, res, rres, ncalls, last, hist>>
+view == <<worlds, vc, probs, pd, tree, rtree, acc, pc, now, deadline, rng, src, res, rres, ncalls, last>>
+
+\* what the installed checker accepts (setup installs a problem definition AND a checker)
+valid == worlds[IF vc = 0 THEN 1 ELSE vc]
 
 None == [kind |-> "none", path |-> <<>>]
 Ret(k) == [kind |-> k, path |-> <<>>]
@@ -39,21 +42,22 @@ NoLast == [on |-> FALSE]
 Kinds == CASE Bias = "0" -> {"u"} [] Bias = "1" -> {"g"} [] OTHER -> {"g", "u"}
 
 Init ==
-  /\ valid \in Worlds /\ probs \in Problems
+  /\ worlds \in WorldPairs /\ vc = 0 /\ probs \in Problems
   /\ pd = 0 /\ tree = <<>> /\ rtree = <<>> /\ acc = {} /\ pc = "idle"
   /\ now = 0 /\ deadline = 0
   /\ rng = IF Seeded THEN "seeded" ELSE "none"
   /\ src = "-" /\ res = None /\ rres = None /\ ncalls = 0 /\ last = NoLast /\ hist = <<>>
 
-Setup(i) ==
+Setup(i, k) ==
   /\ pc = "idle" /\ ncalls < MaxCalls
-  /\ pd' = i
+  /\ <<i, k>> \in SetupChoices
+  /\ pd' = i /\ vc' = k
   /\ tree' = <<Node(probs[i].start, 0, 0)>>
   /\ rtree' = <<Node(probs[i].start, 0, 0)>>
   /\ acc' = {} /\ res' = None /\ rres' = None /\ last' = NoLast
   /\ ncalls' = ncalls + 1
-  /\ hist' = Append(hist, [c |-> "setup", i |-> i])
-  /\ UNCHANGED <<valid, probs, pc, now, deadline, rng, src>>
+  /\ hist' = Append(hist, [c |-> "setup", i |-> i, v |-> k])
+  /\ UNCHANGED <<worlds, probs, pc, now, deadline, rng, src>>
 
 SolveBegin(t) ==
   /\ pc = "idle" /\ ncalls < MaxCalls
@@ -62,16 +66,16 @@ SolveBegin(t) ==
   /\ last' = NoLast
   /\ IF pd = 0
        THEN /\ res' = Ret("uninit") /\ rres' = Ret("uninit")
-            /\ UNCHANGED <<valid, probs, pd, tree, rtree, acc, pc, now, deadline, rng, src>>
+            /\ UNCHANGED <<worlds, vc, probs, pd, tree, rtree, acc, pc, now, deadline, rng, src>>
      ELSE IF ValidateRoots /\ probs[pd].start \notin valid
        THEN /\ res' = Ret("invalidstart") /\ rres' = Ret("invalidstart")
-            /\ UNCHANGED <<valid, probs, pd, tree, rtree, acc, pc, now, deadline, rng, src>>
+            /\ UNCHANGED <<worlds, vc, probs, pd, tree, rtree, acc, pc, now, deadline, rng, src>>
      ELSE /\ res' = None /\ rres' = None
           /\ pc' = "loop" /\ now' = 0 /\ deadline' = t
           /\ src' = IF rng = "seeded" THEN "seeded" ELSE "os"
           /\ rng' = IF rng = "seeded" THEN "taken" ELSE rng
           /\ acc' = IF ValidateRoots THEN acc \cup {probs[pd].start} ELSE acc
-          /\ UNCHANGED <<valid, probs, pd, tree, rtree>>
+          /\ UNCHANGED <<worlds, vc, probs, pd, tree, rtree>>
 
 Finish(r) ==
   /\ res' = r /\ pc' = "idle"
@@ -82,7 +86,7 @@ TimeoutReturn ==
   /\ Finish(Ret("timeout"))
   /\ rres' = IF rres.kind = "none" THEN Ret("timeout") ELSE rres
   /\ hist' = hist
-  /\ UNCHANGED <<valid, probs, pd, tree, rtree, acc, now, deadline, src, ncalls, last>>
+  /\ UNCHANGED <<worlds, vc, probs, pd, tree, rtree, acc, now, deadline, src, ncalls, last>>
 
 (***************************************************************************)
 (* The choose-parent fold, exactly as coded: state = [best, cost, acc].    *)
@@ -163,10 +167,10 @@ Iterate(kind, q, near) ==
                             /\ rres' = IF rres.kind = "none"
                                          THEN [kind |-> "ok", path |-> PathOf(rtree', newi)] ELSE rres
                        ELSE UNCHANGED <<res, rres, pc, rng>>
-  /\ UNCHANGED <<valid, probs, pd, deadline, src, ncalls>>
+  /\ UNCHANGED <<worlds, vc, probs, pd, deadline, src, ncalls>>
 
 Next ==
-  \/ \E i \in 1 .. 2 : Setup(i)
+  \/ \E i \in 1 .. 2, k \in 1 .. 2 : Setup(i, k)
   \/ \E t \in TSet : SolveBegin(t)
   \/ TimeoutReturn
   \/ \E kind \in {"g", "u"}, q \in Pts(T) : \E near \in 1 .. Len(tree) : Iterate(kind, q, near)
